@@ -37,7 +37,7 @@ func TestC14aErrorClasses(t *testing.T) {
 		state := rapid.SampledFrom([]string{"pending", "attempt-in-progress", "down", "online", "online", "online", "closed"}).Draw(rt, "state")
 		method := rapid.SampledFrom([]string{"Publish", "PublishRetained", "Subscribe", "SubscribeLimitAtMostOnce", "SubscribeLimitAtLeastOnce", "Unsubscribe", "Ping", "Disconnect",
 			"PublishAtLeastOnce", "PublishAtLeastOnceRetained", "PublishExactlyOnce", "PublishExactlyOnceRetained"}).Draw(rt, "method")
-		placement := rapid.SampledFrom([]string{"none", "write-fails-at-once", "write-fails-within", "write-expires-after-progress", "response-lost", "malformed-response", "store-fault", "close-while-waiting", "invalid-argument", "fill-queue"}).Draw(rt, "placement")
+		placement := rapid.SampledFrom([]string{"none", "write-fails-at-once", "write-fails-within", "write-expires-after-progress", "response-lost", "malformed-response", "store-fault", "close-while-waiting", "invalid-argument", "fill-queue", "closed-while-writing", "closed-while-writing"}).Draw(rt, "placement")
 		quitKind := rapid.SampledFrom([]string{"nil", "nil", "closed", "fires-while-waiting"}).Draw(rt, "quit")
 		h.Act("state=%s method=%s placement=%s quit=%s max=%d/%d", state, method, placement, quitKind, cfg.AtLeastOnceMax, cfg.ExactlyOnceMax)
 		underFault := false
@@ -115,6 +115,13 @@ func TestC14aErrorClasses(t *testing.T) {
 		case "store-fault":
 			h.Store.FailNext('S')
 			underFault = underFault || persisted
+		case "closed-while-writing":
+			// the request gets stuck inside Write after part of its packet
+			// went out; then the connection is closed locally
+			if c != nil {
+				c.ArmWrite(sim.WFault{Off: c.OutLen() + rapid.IntRange(1, 6).Draw(rt, "cut"), Kind: sim.WPark})
+				underFault = true
+			}
 		}
 		q1Before, q2Before := mqtt.VerifQueueLen(h.Client)
 		slotsBefore := mqtt.VerifUnorderedSlots(h.Client)
@@ -162,6 +169,23 @@ func TestC14aErrorClasses(t *testing.T) {
 		})
 		h.SettleCall(call)
 
+		if placement == "closed-while-writing" && !h.IsDone(call) && h.WritersParkedAny() {
+			switch rapid.IntRange(0, 2).Draw(rt, "closer") {
+			case 0: // the read routine resets on a protocol violation
+				if cur := h.Current(); cur != nil {
+					cur.Send([]byte{0xf0, 0})
+					h.App.Step()
+				}
+			case 1:
+				h.Go("close", nil, func() (<-chan error, error) { return nil, cl.Close() })
+			case 2:
+				q := make(chan struct{})
+				close(q)
+				h.Go("disconnect", nil, func() (<-chan error, error) { return nil, cl.Disconnect(q) })
+			}
+			h.PollQuiet(quiet, func() bool { return h.IsDone(call) })
+			h.SettleCall(call)
+		}
 		// --- what happens while it waits ---
 		waits := method == "Ping" || strings.HasPrefix(method, "Subscribe") || method == "Unsubscribe"
 		if !h.IsDone(call) {
